@@ -2,8 +2,12 @@
 PROP = dict(
     quick_n=3000, thorough_n=100000,
     trusted_base=[
-        "frozen.Set/Map are modelled as lists in enumeration order whose membership test is 'same hashKey and Equal'; "
-        "hashKey is the structural part fed to each Hash method (validated by the correspondence run only)",
+        "frozen.Set/Map are modelled as lists in enumeration order; frozen's Set.Equal is 'same count and same XOR of "
+        "the element hashes, structural comparison only when that XOR is zero' (tree.Equal, FullHash), membership/insert "
+        "is 'same hash and Equal'",
+        "hash values are symbolic: one atom per application of a mixing function of github.com/arr-ai/hash, idealised as "
+        "injective in (function, payload, seed) - no accidental 64-bit collisions; Go's ^ is symmetric difference of atom "
+        "sets; frozen hashes under seeds 0 and 1, the model follows seed 0 only",
         "Dict.Equal(non-Dict set) compares the stored value with the other set's value in flipped argument order "
         "(keeps the model structurally recursive; unobservable on canonical forms by equal_symm)",
         "Relation.EqualRelation is modelled row-by-row with columns matched by name instead of Go's projection of both "
@@ -14,20 +18,27 @@ PROP = dict(
     assumptions=[
         "numbers are integers of small magnitude (float equality, NaN, -0 are out of scope; 0/0 = 0/0 is false by IEEE)",
         "closures/native functions are not data values",
-        "targets: Lit.genLit depth <= 3 over a 3-letter alphabet, integers -2..3, attribute names a,b,c,x; "
+        "targets: Lit.genLit depth <= 3 over a 3-letter alphabet, integers -2..3, attribute names a,b,c,x; negative pairs "
+        "are mutants of the target (leaf change, wrap/unwrap, regrouping of nested sets, offset shift, string<->bytes); "
         "superimposed sequences (KF-superimposed) are not constructed",
-        "`<`/repr observables involving two byte arrays are classed KF-bytes-less until C06's Less repair is merged; "
-        "string `|`/`with` at a non-adjacent index is C01's finding (KF-string-with-fallback); a string built from a set "
-        "literal naming one member twice is c05's repair (KF-string-dup-member)",
+        "observables that run into findings of other properties are split off into cases of their own class: `<`/repr with "
+        "byte arrays (KF-bytes-less, C06), repr/`<` where Less is not a strict weak order (KF-less-inconsistent, C06), `<` on "
+        "sets with two relation buckets (KF-union-less-panic, C06), string `|`/`with` at a non-adjacent index "
+        "(KF-string-with-fallback, C01), a string built from a set literal naming one member twice (KF-string-dup-member, "
+        "c05), byte arrays with gaps (KF-bytes-holes)",
     ],
-    level_text="Proof: Lean theorems about the representation model (one constructor per Go value type): Equal (every Equal method "
-               "transliterated, incl. the asymmetric GenericTuple/Dict ones) coincides with equality of denotations on "
-               "canonical forms, is symmetric there, respects hashKey, canonical forms are unique, the modelled constructors "
-               "(NewTuple, NewOffsetString/Array, String/Array.Without, +>, set builder) return canonical forms of the intended "
-               "denotation, and equal values collapse in a built set / select the same dict entry; witness theorems for the "
-               "behaviour before each repair. Tied to /repo by evaluating pairs of different construction paths for one "
-               "denotation and comparing =, {a,b} count, dict lookup, repr, <, an operator context and the enumerator-level "
-               "denotation. Partial where stated (see *_partial / *_full in Arrai/Proofs/C02.lean).",
+    level_text="Proof: Lean theorems about the representation model (one constructor per Go value type). On canonical forms "
+               "of the proved fragment (numbers, generic/char/byte/item/entry tuples, strings, byte arrays, arrays, booleans, "
+               "generic sets, nested arbitrarily) Equal - every Equal method transliterated, incl. the asymmetric "
+               "GenericTuple/Dict ones and frozen's hash-trusting set comparison - coincides with equality of denotations, "
+               "is symmetric, the repaired Hash is injective up to denotation under every seed (what frozen needs) and "
+               "respects Equal, canonical forms are unique, equal values collapse in a built set / select the same dict "
+               "entry; the modelled constructors (NewTuple, NewOffsetString/Array, String/Array.Without, +>, set builder) "
+               "return canonical forms of the intended denotation (bounded-exhaustive, kernel-evaluated); witness theorems for "
+               "the behaviour before each of the six repairs. Dictionaries, relations and union sets: *_full statements, "
+               "correspondence only. Tied to /repo by evaluating pairs of different construction paths for one denotation "
+               "(and mutants with a different one) and comparing =, {a}={b}, {a,b} count, dict lookup, repr, <, an operator "
+               "context and the enumerator-level denotation.",
     design_ref="DESIGN.md section 6, C02",
     env={"HARNESS_TIMEOUT_MS": "60000"},
     watch=["rel.GenericTuple.Equal", "rel.GenericTuple.Hash", "rel.GenericTuple.Canonical", "rel.GenericTuple.With",
